@@ -317,7 +317,19 @@ func (e *Engine) EnableStubs(set string) {
 			p.side["hasComponents"] = a[0].(BoolV).T
 			return nil
 		}
+		I["vrt.SetRenderFailure"] = func(p *Path, a []Value, site ssa.Instruction) Value {
+			p.side["renderFailAt"] = p.constIntArg(a[0], "vrt.SetRenderFailure")
+			p.side["renderCalls"] = 0
+			return nil
+		}
 		I["(github.com/vkd/goag/generator.GoFile).Render"] = func(p *Path, a []Value, site ssa.Instruction) Value {
+			if k, ok := p.side["renderFailAt"].(int); ok && k > 0 {
+				n := p.side["renderCalls"].(int) + 1
+				p.side["renderCalls"] = n
+				if n == k {
+					return TupleV{E: []Value{StrV{}, p.mkErr(constStr("render: not implemented"), nil)}}
+				}
+			}
 			// the rendered text of a file is a function of the GoFile value
 			// (object identities do not matter: two generators built from the same
 			// inputs render the same text)
